@@ -415,7 +415,7 @@ DocsSlice == {SlArr(n) : n \in 0..SlL} \cup {O1(cA, SlArr(n)) : n \in 0..SlL} \c
 (* ---------------- C03: precedence, associativity, projection scope -------------------------- *)
 (* every way of putting an operator around x, with an atom (or the identity, for right-hand sides) as
    the other operand; three levels give all nestings of up to three operators *)
-PrecAtoms == <<fA, fB, Current, Lit(I(1))>>
+PrecAtoms == <<fA, fB, Current, Lit(I(1)), Not(fA)>>      \* (a prefix operator as an atom: `!a.b`, `!a[0]`, `!a | b` are trees with two operators)
 PrecRhs == <<Identity, fA, fB, IdxI(0)>>
 PrecNS == 36
 PrecDim(s) == CASE s \in 1..12 -> Len(PrecAtoms) [] s \in {18, 19, 20, 21, 23} -> Len(PrecRhs) [] OTHER -> 1
